@@ -15,9 +15,9 @@ from vlib.runner import HERE, Outcome, hyp_search
 
 ID = "C12"
 LEVEL = "exploration"
-RULE = ("Each shard fixes a pool of 8 documents (generated ones that deliberately share object numbers, the resource "
+RULE = ("Each shard fixes a pool of 11 documents (generated ones that deliberately share object numbers, the resource "
         "name /F1, BaseFont names, base encodings differing only in /Differences, predefined CMap names with different "
-        "ToUnicode maps, multi-page members, a grid of equidistant labels, two Type0 fonts sharing one descendant; plus repository samples incl. an AES-encrypted one and CJK ones). "
+        "ToUnicode maps, multi-page members, a grid of equidistant labels, two Type0 fonts sharing one descendant, Type1 fonts with different built-in encodings, a /Font dictionary mixing indirect and direct fonts; plus repository samples incl. an AES-encrypted one and CJK ones). "
         "Hypothesis draws call histories (model-based op lists) run in one long-lived process: extract_text, "
         "extract_pages to completion, open a page iterator, advance any open iterator (interleaving documents), extract "
         "a single page by page_numbers, extract_text_to_fp(xml); each with caching on/off and LAParams default or "
@@ -86,6 +86,26 @@ def gen_doc(kind, variant):
         text = "あいう漢字" if variant % 2 == 0 else "カタカナ字"
         raw = text.encode("utf-16-be") if "Uni" in cm else text.encode("cp932")
         pages = [b"BT /F1 12 Tf 50 700 Td <%s> Tj ET" % raw.hex().encode(), b"BT /F1 12 Tf 50 650 Td <%s> Tj ET" % raw[:4].hex().encode()]
+    elif kind == "fontfile":
+        # Type1 fonts that take their encoding from the embedded font program (no /Encoding): different programs
+        # assign different glyphs to the same codes
+        pairs = [[(65, "x"), (66, "y"), (67, "z")], [(65, "p"), (66, "q")], [(65, "one"), (67, "two")]][variant % 3]
+        ff, _ = F.type1_fontfile(pairs, fontname="Emb%d" % variant)
+        objs[11] = ff
+        objs[10] = W.D(Type=W.N("Font"), Subtype=W.N("Type1"), BaseFont=W.N("Embedded"), FirstChar=65, LastChar=70,
+                       Widths=[500] * 6,
+                       FontDescriptor=W.D(Type=W.N("FontDescriptor"), FontName=W.N("Embedded"), Flags=4,
+                                          FontBBox=[0, 0, 1000, 1000], Ascent=800, Descent=-200, FontFile=W.R(11)))
+        pages = [b"BT /F1 12 Tf 50 700 Td (ABC) Tj ET", b"BT /F1 12 Tf 50 700 Td (CBA AB) Tj ET"]
+    elif kind == "mixedfonts":
+        # /Font dictionary with an indirect font first and a direct (inline) font dictionary after it
+        objs[10] = W.simple_font("Indirect", encoding="WinAnsiEncoding")
+        direct = W.simple_font("Direct", encoding=None)
+        direct[b"Encoding"] = W.D(Type=W.N("Encoding"), BaseEncoding=W.N("WinAnsiEncoding"),
+                                  Differences=[65, W.N("x"), W.N("y"), W.N("z")])
+        objs[15] = direct
+        mixed = {b"F1": W.R(10), b"F2": direct} if variant % 2 == 0 else {b"F0": W.R(10), b"F1": W.R(10), b"F2": direct}
+        pages = [b"BT /F1 12 Tf 50 700 Td (ABC) Tj /F2 12 Tf ( ABC) Tj ET", b"BT /F2 12 Tf 50 700 Td (CBA) Tj ET"]
     elif kind == "shared":
         # two Type0 fonts share ONE descendant CIDFont object; only the first has a /ToUnicode.  Whatever the first
         # font adds to the (cached) descendant must not show in the second, whichever page is extracted first.
@@ -115,7 +135,8 @@ def gen_doc(kind, variant):
     for i, c in enumerate(pages):
         objs[20 + 2 * i] = W.Stream({}, c)
         objs[21 + 2 * i] = W.D(Type=W.N("Page"), Parent=W.R(2), MediaBox=[0, 0, 612, 792], Contents=W.R(20 + 2 * i),
-                               Resources={b"Font": {b"F1": W.R(10), b"F2": W.R(15 if 15 in objs else 10)}})
+                               Resources={b"Font": mixed if kind == "mixedfonts" else
+                                          {b"F1": W.R(10), b"F2": W.R(15 if 15 in objs else 10)}})
         kids.append(W.R(21 + 2 * i))
     objs[1] = W.D(Type=W.N("Catalog"), Pages=W.R(2))
     objs[2] = W.D(Type=W.N("Pages"), Kids=kids, Count=len(kids))
@@ -146,6 +167,10 @@ def make_pool(rnd):
     pool.append(["gen", k, v[1]])
     pool.append(["gen", "grid", rnd.randrange(2)])
     pool.append(["gen", "shared", rnd.randrange(2)])
+    fv = rnd.sample(range(3), 2)
+    pool.append(["gen", "fontfile", fv[0]])
+    pool.append(["gen", "fontfile", fv[1]])
+    pool.append(["gen", "mixedfonts", rnd.randrange(2)])
     for s in rnd.sample(SAMPLES, 2):
         pool.append(["sample", s[0], s[1]])
     order = list(range(len(pool)))
@@ -347,7 +372,7 @@ def _pagesdiff(a, b):
 
 # ---------------------------------------------------------------------------------------------- generators
 def op_strategy():
-    d = st.integers(0, 7)
+    d = st.integers(0, 10)
     la = st.sampled_from(LAS)
     c = st.booleans()
     return st.one_of(
